@@ -369,7 +369,10 @@ def _judge_cubic(x_train, grid, cfg, tol=1e-9):
                         continue
                     e = e @ Z[0]
                 scale = 1.0 + float(np.abs(e).max())
-                ok = row.shape == e.shape and bool((np.abs(row - e) <= tol * scale).all())
+                # the transform locates / wraps x in floating point: a position error of one ulp of |x| moves the value by
+                # about |basis'| * ulp ~ eps * max|x| / (smallest knot spacing); allowed on top of the solver tolerance
+                cond = 64 * 2.220446049250313e-16 * max(abs(lb), abs(ub), abs(v)) / min(b - a for a, b in zip(knots, knots[1:]))
+                ok = row.shape == e.shape and bool((np.abs(row - e) <= (tol + cond) * scale).all())
                 detail = f"x={v!r} ({where}): row {row.tolist()} expected {e.tolist()}"
             if not ok:
                 clause = f"C12.{name}.values" if inside else f"C12.{name}.extrapolation"
